@@ -74,7 +74,7 @@ def expected_render(tid: str, var: str, caps: dict, who: str) -> str:
 def setup_worker() -> None:
     import zorg.service.templates as t
 
-    harness.COUNTERS.watch("render", t.ZorgTemplateManager.render)
+    harness.COUNTERS.watch_attr(t.ZorgTemplateManager, "render")
     TRACER.install()
     if contracts.AVAILABLE:
         ic = contracts.icontract
